@@ -122,6 +122,14 @@ def gen_case(rng, depth, nops):
         if r < 0.70:          # fitting assignment of a leaf or of a whole nested compound of equal size
             new = gen_like(rng, et, old, fit=True)
             form = "np" if (et["k"] == "array" and rng.random() < 0.5) else "py"
+            if et["k"] in ("array", "struct") and rng.random() < 0.25:
+                # another xobject as the new value: of the same class, or (N-D arrays) of the array class
+                # with the same items and shape but another axis order
+                form = "xobj_oo" if (et["k"] == "array" and len(et["shape"]) > 1 and rng.random() < 0.6) else "xobj"
+                # an object carries its own string capacities; keep the history unambiguous: use it only when
+                # they coincide with the capacities fixed at creation (else the value goes in as plain data)
+                if retag(et, old, new) is None or source_caps(et, new) != retag(et, old, new):
+                    form = "py"
             exp = retag(et, old, new)
             op = {"mode": "set", "path": [list(s) for s in p], "new": new, "via": via, "form": form, "expect": exp is not None}
             c["ops"].append(op)
@@ -181,7 +189,7 @@ def systematic_cases(rng):
                 mk = lambda off: {"shape": list(dims), "items": [[(5 * i + off) & 255, (i + off) & 255] for i in range(n)]}
                 v = {"f": [[1, 0, 0, 0, 0, 0, 0, 0], mk(0), [9]]}
                 ops = []
-                for j, (form, via) in enumerate((("np", "handle"), ("py", "view"), ("np", "view"))):
+                for j, (form, via) in enumerate((("np", "handle"), ("py", "view"), ("np", "view"), ("xobj_oo", "handle"), ("xobj", "view"))):
                     ops.append({"mode": "set", "path": [["f", 1]], "new": mk(10 * (j + 1)), "via": via, "form": form, "expect": True})
                     if j == 0:
                         ops.append({"mode": "grow", "extra": 64})
@@ -194,6 +202,18 @@ def path_term(p):
     return "[%s]" % "; ".join(("PF %s" if k == "f" else "PI %s") % natlit(i) for k, i in p)
 
 
+def source_caps(t, v):
+    """the value as an xobject built from plain data holds it: every string with its minimal capacity"""
+    k = t["k"]
+    if k == "string":
+        return {"s": list(v["s"]), "size": (v["cap"] + 8) if "cap" in v else G.slot(len(v["s"]) + 9)}
+    if k == "struct":
+        return {"f": [source_caps(ft, x) for (_, ft), x in zip(t["fields"], v["f"])]}
+    if k == "array":
+        return {"shape": list(v["shape"]), "items": [source_caps(t["item"], x) for x in v["items"]]}
+    return v
+
+
 def case_term(c, r):
     t = c["type"]
     steps = []
@@ -202,10 +222,11 @@ def case_term(c, r):
             continue
         if op["mode"] == "set" and op.get("expect") is not None:
             et = sub_ty(t, [tuple(s) for s in op["path"]])
-            o = "Some (%s, %s)" % (path_term(op["path"]), G.val_term(et, op["new"]))
+            exact = op.get("form") in ("xobj", "xobj_oo")
+            o = "Some (%s, %s)" % (path_term(op["path"]), G.val_term(et, source_caps(et, op["new"]) if exact else op["new"]))
         else:
-            o = "None"
-        steps.append("mkU (%s) %s %s" % (o, "true" if st["ok"] else "false", zlist(st["bytes"])))
+            o = "None"; exact = False
+        steps.append("mkU (%s) %s %s %s" % (o, "true" if exact else "false", "true" if st["ok"] else "false", zlist(st["bytes"])))
     return "mkUC (%s) (%s) %s %s [%s]" % (G.ty_term(t), G.val_term(t, c["value"]), zlit(r["size"]), zlist(r["bytes0"]), ";\n     ".join(steps))
 
 
@@ -314,6 +335,7 @@ def run(ctx):
     hist = collections.Counter()
     for i, (c, r) in enumerate(zip(cases, results)):
         for op in c["ops"]:
+            if op.get("form") in ("xobj", "xobj_oo", "np"): hist["new-value-as:" + op["form"]] += 1
             nsteps += 1; hist["op:" + op["mode"] + (":" + op["misuse"] if "misuse" in op else (":fitting" if op.get("expect") else ""))] += 1
         for sig, what, k in judge_case(pid, c, r, coq_fail.get(i)):
             if sig not in bysig or len(json.dumps(c)) < len(json.dumps(cases[bysig[sig][0]])):
